@@ -14,7 +14,7 @@ from ..model import refcsv
 PROPERTY = 'C11'
 LEVEL = 'exploration'
 
-DELIMS = [',', '\t', ';', ' ', '::', '|', '→', ', ', '\\', '^', '.', '*']      # the last four are regular-expression metacharacters
+DELIMS = [',', '\t', ';', ' ', '::', '|', '→', ', ', '\\', '^', '.', '*', '  ', '   ']      # four regular-expression metacharacters; two delimiters made of the padding character alone (column-aligned text)
 NSHARDS_PER_DELIM = {'quick': 3, 'thorough': 6}
 MAXLEN = {'quick': 8, 'thorough': 9}
 MAXLEN_MULTI = {'quick': 6, 'thorough': 7}
@@ -27,7 +27,7 @@ def alphabet_for(dlm):
     if dlm != ' ':
         syms.append(' ')
     syms.append('x')
-    if len(dlm) > 1:
+    if len(dlm) > 1 and dlm[0] not in syms:
         syms.append(dlm[0])
     return syms
 
@@ -200,7 +200,7 @@ def run_js_leg(spec, res):
         return
     try:
         batch = []
-        for dlm, extra in [(',', ''), (' ', ''), ('\t', ''), ('::', ''), (', ', ''), (' | ', ''), (',', '\t'), (';', '\xa0')]:
+        for dlm, extra in [(',', ''), (' ', ''), ('\t', ''), ('::', ''), (', ', ''), (' | ', ''), ('  ', ''), (',', '\t'), (';', '\xa0')]:
             syms = alphabet_for(dlm) + list(extra)
             maxlen = spec['maxlen'] - (1 if len(syms) > 4 else 0)
             for tup in enum.words(syms, maxlen):
